@@ -370,6 +370,12 @@ func (r *Run) Finish() {
 	cov["evaluations"] = r.evals
 	cov["distinct_nontrivial"] = len(r.nontrivial)
 	cov["rule"] = r.rule
+	if r.samples == nil {
+		r.samples = []any{}
+	}
+	if r.caps == nil {
+		r.caps = []string{}
+	}
 	cov["samples"] = r.samples
 	cov["states"] = st
 	cov["transitions"] = tr
